@@ -249,7 +249,8 @@ class SyncedList(SyncedCollection, MutableSequence):
 
     def clear(self):  # noqa: D102
         if self._root is None:
-            self._data = []
+            # Clear in place: buffers may hold a reference to the container.
+            del self._data[:]
             with self._thread_lock:
                 self._save()
         else:
